@@ -100,6 +100,11 @@ func newPair(s *world.Sim) *pair {
 	}
 	w.Bus.DropP = float64(sc.Cfg("drop_pm", 0)) / 1000
 	w.Bus.DupP = float64(sc.Cfg("dup_pm", 0)) / 1000
+	if sc.Cfg("real_localbus", 0) == 1 {
+		// the library's own in-process bus carries the deliveries (real code)
+		w.Bus.Inner = wire.NewLocalBus()
+		s.Count("probe.real_local_bus", 1)
+	}
 	p := &pair{s: s, w: w, tokens: map[string]chan struct{}{}}
 	if sc.Cfg("watch", 0) == 1 {
 		p.watchSide = [2]bool{true, true}
